@@ -61,6 +61,7 @@ func runDialScenario(t *testing.T, sc dialScen, delay, timeout int) (evs []Ev, c
 			mu.Unlock()
 		}
 		var addrs []string
+		calls := map[int]int{}
 		idx := map[string]int{}
 		for i, o := range sc.Oc {
 			if o.Kind == "rerr" {
@@ -83,8 +84,27 @@ func runDialScenario(t *testing.T, sc dialScen, delay, timeout int) (evs []Ev, c
 					return nil, errors.New("unknown address")
 				}
 				o := sc.Oc[i-1]
-				log(Ev{"e": "start", "i": i, "c": func() bool { return ctx.Err() != nil }})
+				// half of the hanging attempts hang in their *second* handshake: the first one is rejected by the server with
+				// retry configs after one time unit, and the attempt goes on with the new list - still one attempt, one Timeout
+				mu.Lock()
+				calls[i]++
+				second := calls[i] > 1
+				mu.Unlock()
+				if !second {
+					log(Ev{"e": "start", "i": i, "c": func() bool { return ctx.Err() != nil }})
+				}
 				var res string
+				if o.Kind == "hang" && !second && (i+len(sc.Oc))%2 == 0 {
+					tm := time.NewTimer(dialUnit)
+					select {
+					case <-ctx.Done():
+						tm.Stop()
+						log(Ev{"e": "end", "i": i, "r": "ctx"})
+						return nil, errors.New("ctx")
+					case <-tm.C:
+						return nil, &tls.ECHRejectionError{RetryConfigList: []byte{0, 1, 0}}
+					}
+				}
 				if o.Kind == "hang" {
 					<-ctx.Done()
 					res = "ctx"
